@@ -152,9 +152,12 @@ func (c *Context) ParseFile(file string, src any) (*Package, error) {
 func (c *Context) loadPackage(srcDir string, pkgs map[string]*ast.Package) (*Package, error) {
 	mainPkg, ok := pkgs["main"]
 	if !ok {
-		for _, v := range pkgs {
-			mainPkg = v
-			break
+		// pick a fixed package (the order of a map iteration changes from run to run)
+		var first string
+		for name := range pkgs {
+			if mainPkg == nil || name < first {
+				first, mainPkg = name, pkgs[name]
+			}
 		}
 	}
 	conf := &cl.Config{Fset: c.fset}
